@@ -8,6 +8,11 @@
 //	C  index high-water mark    (concurrent TrustedVerifier.VerifyIndex; pairwise + porcupine register model)
 //	D  crash atomicity          (child process killed at every file-system syscall of an install, via strace
 //	                             fault injection; optionally at the verifhook points when hooks.patch is applied)
+//
+// Adjacent observations that the property text does not cover (for example
+// paths outside the install directory changed because of a malformed index
+// digest) are counted in Stats/Sets and only become violations with
+// VERIF_C19_STRICT_TREE=1.
 package c19
 
 import (
@@ -26,9 +31,9 @@ func (*prop) Rule() string {
 	return "fixed list in (VERIF_SEED, index): [A] per entry-name class (27) a chunk of generated tar.gz archives rotating through all 31 entry-type/container classes " +
 		"(raw 512-byte-block writer: dot-dot/absolute/NUL/long/unicode/backslash names, links, devices, PAX/GNU long/sparse headers, lying sizes, truncation, multi-member gzip) " +
 		"fed to registry.ExtractBinary, plus PAX-sparse archives at/over the 1 GiB cap, plus hostile archives pushed through a full registry.Install; " +
-		"[B] one case per (digest class x verifier behaviour x fetch scenario) triple, each run over 9 unsigned-policy contexts (x4 prestates in thorough) with registry.Install against a loopback httptest server; " +
+		"[B] one case per (digest class x verifier behaviour x fetch scenario) triple, each run over 9 unsigned-policy contexts (x4 prestates in thorough) with registry.Install against a loopback httptest server, plus registry.InstallProcessor cells with the repository's real WASM fixture; " +
 		"[C] one concurrent history of TrustedVerifier.VerifyIndex / Install(DryRun) calls with ed25519-signed envelopes of random versions per case; " +
-		"[D] per (prestate scenario x stride slice) a child process performing one Install is SIGKILLed by strace fault injection immediately before the N-th occurrence of each file-system syscall of its main thread (every point from the first syscall naming the install directory to the last, enumerated from a trace-only calibration run), then the parent inspects the directory and installs again. " +
+		"[D] per (prestate scenario x stride slice) a child process performing one Install is SIGKILLed by strace fault injection immediately before the N-th occurrence of each file-system syscall of its main thread (every point from the first syscall naming the install directory to the last, enumerated from a trace-only calibration run), then the parent inspects the directory and installs again; [D-hooks] when /verif/checks/c19/hooks.patch is applied, additionally one exit(137) per verifhook point hit (atomicfile steps, registry install steps). " +
 		"A case is distinct by its signature: monitor + input class + the set of outcomes observed (A: name class + refused/extracted; B: triple + outcome codes; C: mode + verifier instances + seeded + refusal shape; D: scenario + normalised kill syscall + post-mortem state); " +
 		"non-trivial iff the deciding path ran (A: an archive reached ExtractBinary; B: the digest check or verification gate was reached; C: at least one index accepted and the mark observed; D: the child was killed after it had started touching the install directory)."
 }
